@@ -1,0 +1,116 @@
+//go:build verif
+// +build verif
+
+package simdjson
+
+import (
+	"sync/atomic"
+	"unsafe"
+)
+
+// Verification hooks (build tag "verif").  The library calls verifEv/verifIdx
+// at the hand-off points of the two-stage pipeline; a test harness may install
+// a function with VerifSetHook to record the events or to block in them (a
+// blocking hook acts as a scheduler gate).  Without an installed hook the
+// calls do nothing.
+
+// VerifEvent is one hook event.
+type VerifEvent struct {
+	Obj     uintptr // identity of the parser object the event belongs to
+	Ev      string
+	A, B, C int
+	Sum     uint32 // checksum of the index buffer concerned (0 if none)
+	Slot    int    // ring slot of the index buffer concerned (-1 if none)
+	Len     int    // number of indexes in the buffer concerned
+}
+
+var verifHook atomic.Value // func(VerifEvent)
+
+// VerifSetHook installs fn (nil removes it).
+func VerifSetHook(fn func(VerifEvent)) {
+	if fn == nil {
+		verifHook.Store((func(VerifEvent))(nil))
+		return
+	}
+	verifHook.Store(fn)
+}
+
+func verifFn() func(VerifEvent) {
+	h, _ := verifHook.Load().(func(VerifEvent))
+	return h
+}
+
+func verifEv(pj *internalParsedJson, ev string, a, b, c int) {
+	if h := verifFn(); h != nil {
+		h(VerifEvent{Obj: uintptr(unsafe.Pointer(pj)), Ev: ev, A: a, B: b, C: c, Slot: -1})
+	}
+}
+
+func verifIdx(pj *internalParsedJson, ev string, idx *indexChan, n int) {
+	h := verifFn()
+	if h == nil {
+		return
+	}
+	e := VerifEvent{Obj: uintptr(unsafe.Pointer(pj)), Ev: ev, A: n, B: idx.index, Slot: -1, Len: idx.length}
+	if idx.indexes != nil {
+		for s := range pj.buffers {
+			if idx.indexes == &pj.buffers[s] {
+				e.Slot = s
+			}
+		}
+		sum := uint32(2166136261)
+		for _, v := range idx.indexes[:idx.length] {
+			sum = (sum ^ v) * 16777619
+		}
+		e.Sum = sum
+	}
+	h(e)
+}
+
+// VerifStreamEvent is a ParseNDStream hook event; Key is the result channel
+// the stream was started with.
+type VerifStreamEvent struct {
+	Key  interface{}
+	Ev   string
+	A, B int
+}
+
+var verifStreamHook atomic.Value // func(VerifStreamEvent)
+
+// VerifSetStreamHook installs fn (nil removes it).
+func VerifSetStreamHook(fn func(VerifStreamEvent)) {
+	if fn == nil {
+		verifStreamHook.Store((func(VerifStreamEvent))(nil))
+		return
+	}
+	verifStreamHook.Store(fn)
+}
+
+func verifStream(key interface{}, ev string, a, b int) {
+	if h, _ := verifStreamHook.Load().(func(VerifStreamEvent)); h != nil {
+		h(VerifStreamEvent{Key: key, Ev: ev, A: a, B: b})
+	}
+}
+
+// VerifPoolEvent is a Get/Put on one of the package-level pools.
+type VerifPoolEvent struct {
+	Ev, Pool string
+	Obj      interface{}
+}
+
+var verifPoolHook atomic.Value // func(VerifPoolEvent)
+
+// VerifSetPoolHook installs fn (nil removes it).
+func VerifSetPoolHook(fn func(VerifPoolEvent)) {
+	if fn == nil {
+		verifPoolHook.Store((func(VerifPoolEvent))(nil))
+		return
+	}
+	verifPoolHook.Store(fn)
+}
+
+func verifPool(ev, pool string, obj interface{}) {
+	if h, _ := verifPoolHook.Load().(func(VerifPoolEvent)); h != nil {
+		h(VerifPoolEvent{Ev: ev, Pool: pool, Obj: obj})
+	}
+}
